@@ -6,7 +6,7 @@ rows = []
 for d in sorted(os.listdir(os.path.join(root, "seeded"))):
     m = json.load(open(os.path.join(root, "seeded", d, "meta.json")))
     rows.append("| %s | %s | %s | %s |" % (d, m["property"], m["needs_to_manifest"].replace("|", "\\|"), m["caught_by"].replace("|", "\\|")))
-missed = sum(1 for r in rows if "missed at first" in r)
+missed = sum(1 for r in rows if "missed at first" in r or "was missed" in r)
 head = "| seed | property | needs, in order to manifest | caught by (quick tier) |\n|---|---|---|---|\n"
 table = "<!-- SEEDTABLE-BEGIN -->\n%d changes; %d were caught by the checks as built, %d were missed at first and led to the strengthening noted in the last column; all are now reported as `VIOLATION` by the quick tier of their property, and every such violation replays on the plain interpreter.\n\n" % (len(rows), len(rows) - missed, missed) + head + "\n".join(rows) + "\n<!-- SEEDTABLE-END -->"
 p = os.path.join(root, "DESIGN.md")
